@@ -27,7 +27,7 @@ EST = "dreye.api.estimator:ReceptorEstimator"
 U_EPS = {"c": 2, "s": -2}
 
 AXES = {
-    "K": (["vec", "mat", None], ["vec", "mat", None]),
+    "K": (["vec", "mat", None, "scalar"], ["vec", "mat", None, "scalar"]),
     "baseline": (["vec", None], ["vec", None, "scalar"]),
     "W": (["mat", "vec"], ["mat", "vec", None]),
     "lb": (["nonneg", "any"], ["nonneg", "any"]),
@@ -168,8 +168,11 @@ def estimator_chain(rep, an):
         # the default variance model is the REGISTERED one: a fit with explicit targets and an explicit model must not replace it
         R.rule_effect_free(rep, res, entry)
     # register_system: Epsilon derives from the registered filter uncertainty, else 'heteroscedastic'
-    for unc in (None, "given"):
-        fields = estimator_fields(K="vec", baseline="vec", uncertainty=unc)
+    for unc in (None, "given", "samples"):
+        fields = estimator_fields(K="vec", baseline="vec", uncertainty=(None if unc is None else "given"))
+        if unc == "samples":
+            # the uncertainty registered as SAMPLES of the filter functions: (n_samples, n_filters, n_domain)
+            fields["filters_uncertainty"] = arr("self.filters_uncertainty", S("U", "F", "D"), {"phi": 1})
         for k in ("A", "Epsilon", "sources", "sources_domain", "lb", "ub", "sources_labels"):
             fields.pop(k, None)
         kw = dict(sources=arr("sources", S("SRC", "D"), U_SIGNAL), domain=none(), lb=none(), ub=none(), labels=none(), Epsilon=none())
@@ -189,3 +192,17 @@ def estimator_chain(rep, an):
             rep.check("R-FLOW", "default variance model = registered filter uncertainty of the sources", ok, where=st[-1].loc,
                       construct=st[-1].text(), entry="ReceptorEstimator.register_system", config=res.config,
                       msg=f"stored Epsilon depends on {sorted(v.data)}")
+            if unc == "samples":
+                # variance of the capture = variance over the samples of the capture INTEGRAL (correlations across wavelengths kept):
+                # the variance is taken of a quantity that already contains the sources, not of the filter samples per wavelength
+                vs = [e for e in res.events("ext_call") if e.d["dotted"] in ("numpy.var", "numpy.std") and e.d["args"]
+                      and "self.filters_uncertainty" in e.d["args"][0].flat().data]
+                for e in vs:
+                    ok = "sources" in e.d["args"][0].flat().data
+                    rep.check("R-FLOW", "sampled uncertainty: variance over samples of the capture integral", ok, where=e.loc, construct=e.text(),
+                              entry="ReceptorEstimator.register_system", config=res.config,
+                              msg="the variance is taken per wavelength of the filter samples and then integrated against the squared spectrum: "
+                                  "correlations across wavelengths (peak shift, gain jitter) are dropped, Var(∫f·I) ≠ ∫Var(f)·I²")
+                if not vs:
+                    rep.undecided("R-FLOW", "sampled uncertainty: variance over samples of the capture integral", where=res.fn.loc(),
+                                  construct="np.var(capture of the filter samples, axis=0)", entry="ReceptorEstimator.register_system", config=res.config)
